@@ -533,8 +533,11 @@ class Connection(object):
         # handler has initiated a new connection, meaning that we should not
         # interfere with the connection state. Otherwise, make sure that any
         # current connection is completely terminated.
-        if (self.new_networking_thread or self.networking_thread).interrupt:
-            self.disconnect(immediate=True)
+        # The check and the disconnection must be atomic with respect to a
+        # concurrent connect(), which holds the write lock throughout.
+        with self._write_lock:
+            if (self.new_networking_thread or self.networking_thread).interrupt:
+                self.disconnect(immediate=True)
 
         # If allowed by the final exception handler, re-raise the exception.
         if final_handler is None and not caught:
